@@ -2,7 +2,8 @@
 # Re-runs all quick checks (dbg,rel lanes by default) against each stored behaviour-preserving refactor.
 cd /verif
 LANES=${1:-dbg,rel}
-for n in A B C D; do
+for n in A B C D E F G; do
+  [ -f /verif/benign/$n/refactor.diff ] || continue
   WT=/tmp/benign_$n
   git -C /repo worktree add -q --detach $WT HEAD || exit 2
   git -C $WT apply /verif/benign/$n/refactor.diff || { echo "benign $n: diff does not apply"; git -C /repo worktree remove --force $WT; continue; }
